@@ -405,7 +405,9 @@ impl WorkerTree {
                 .node_weight_mut(node_index)
                 .expect("node index should exist");
 
-            if !root_item.data.is_in_place() {
+            // a file that is at the place of an output that was never written is not
+            // an output (the source never parsed, or the configuration skips it)
+            if !root_item.data.is_in_place() && root_item.output_written {
                 self.remove_files
                     .push(root_item.data.output().to_path_buf());
             }
@@ -431,7 +433,7 @@ impl WorkerTree {
 
             for node_index in remove_nodes {
                 if let Some(work_item) = self.graph.remove_node(node_index) {
-                    if !work_item.data.is_in_place() {
+                    if !work_item.data.is_in_place() && work_item.output_written {
                         self.remove_files
                             .push(work_item.data.output().to_path_buf());
                     }
